@@ -10,25 +10,12 @@ namespace QbiceVerif.Codec.C15Nested
 
 open QbiceVerif.Codec QbiceVerif.Codec.Nested
 
-/-- *"… reproduces the values and the sharing"*: in the value `d` decoded from `encodeTop t v` (any nesting
-depth, any DAG sharing, any good decoder-side interner, any trailing bytes), for ANY two handle occurrences
-`x`, `y` — top level, inside a container, inside the payload of another handle at any depth, one inside and
-one outside —
-* `x` and `y` point to ONE allocation (same slot) iff they have the same type id and equal payloads; in
-  particular handles of different types never share, even when the hashes of their payloads are equal;
-* and then they carry the same decoded payload, identities included (the allocation is one object: the
-  handles below it are shared too).
-Same no-collision hypothesis as `interned_roundtrip_nested`. -/
-theorem interned_sharing_nested {env : Nat → NTy} {hash : Nat → NVal → Nat} {S : Nat → NVal → Prop}
+/-- the sharing relation of any list of canonical handles in an interner with integrity -/
+theorem sharing_of_canon {hash : Nat → NVal → Nat} {S : Nat → NVal → Prop}
     (hinj : ∀ tid p₁ p₂, S tid p₁ → S tid p₂ → hash tid p₁ = hash tid p₂ → p₁ = p₂)
-    (hbound : ∀ tid p, S tid p → hash tid p < 2 ^ 128)
-    (t : NTy) (v : NVal) (hwt : wtN env t v = true) (hS : ∀ x ∈ v.handles, S x.1 x.2)
-    (I : NInterner) (hI : IOk hash S I) (rest : Bytes) (fuel : Nat) (hfuel : v.need ≤ fuel) :
-    ∃ d I', dec env hash fuel t (encodeTop env hash t v ++ rest) I = .ok (d, rest, I') ∧ d.erase = v ∧
-      ∀ x ∈ d.handles, ∀ y ∈ d.handles,
-        (x.2.1 = y.2.1 ↔ (x.1 = y.1 ∧ x.2.2.erase = y.2.2.erase)) ∧ (x.2.1 = y.2.1 → x.2.2 = y.2.2) := by
-  obtain ⟨d, I', h1, h2, _, hok, hc⟩ := C12Nested.interned_roundtrip_nested hinj hbound t v hwt hS I hI rest fuel hfuel
-  refine ⟨d, I', h1, h2, ?_⟩
+    {I' : NInterner} (hok : IOkW hash S I') {L : List (Nat × Nat × DVal)} (hc : CanonH hash I' L) :
+    ∀ x ∈ L, ∀ y ∈ L,
+      (x.2.1 = y.2.1 ↔ (x.1 = y.1 ∧ x.2.2.erase = y.2.2.erase)) ∧ (x.2.1 = y.2.1 → x.2.2 = y.2.2) := by
   intro x hx y hy
   have fx := hc x hx
   have fy := hc y hy
@@ -51,6 +38,41 @@ theorem interned_sharing_nested {env : Nat → NTy} {hash : Nat → NVal → Nat
     simp only [Option.some.injEq, Prod.mk.injEq] at fx
     exact fx.2.symm
 
+/-- *"… reproduces the values and the sharing"*: in the value `d` decoded from `encodeTop t v` (any nesting
+depth, any DAG sharing, any good decoder-side interner, any trailing bytes), for ANY two handle occurrences
+`x`, `y` — top level, inside a container, inside the payload of another handle at any depth, one inside and
+one outside —
+* `x` and `y` point to ONE allocation (same slot) iff they have the same type id and equal payloads; in
+  particular handles of different types never share, even when the hashes of their payloads are equal;
+* and then they carry the same decoded payload, identities included (the allocation is one object: the
+  handles below it are shared too).
+Same no-collision hypothesis as `interned_roundtrip_nested`. -/
+theorem interned_sharing_nested {env : Nat → NTy} {hash : Nat → NVal → Nat} {S : Nat → NVal → Prop}
+    (hinj : ∀ tid p₁ p₂, S tid p₁ → S tid p₂ → hash tid p₁ = hash tid p₂ → p₁ = p₂)
+    (hbound : ∀ tid p, S tid p → hash tid p < 2 ^ 128)
+    (t : NTy) (v : NVal) (hwt : wtN env t v = true) (hS : ∀ x ∈ v.handles, S x.1 x.2)
+    (I : NInterner) (hI : IOk hash S I) (rest : Bytes) (fuel : Nat) (hfuel : v.need ≤ fuel) :
+    ∃ d I', dec true env hash fuel t (encodeTop env hash t v ++ rest) I = .ok (d, rest, I') ∧ d.erase = v ∧
+      ∀ x ∈ d.handles, ∀ y ∈ d.handles,
+        (x.2.1 = y.2.1 ↔ (x.1 = y.1 ∧ x.2.2.erase = y.2.2.erase)) ∧ (x.2.1 = y.2.1 → x.2.2 = y.2.2) := by
+  obtain ⟨d, I', h1, h2, _, hok, hc⟩ := C12Nested.interned_roundtrip_nested hinj hbound t v hwt hS I hI rest fuel hfuel
+  exact ⟨d, I', h1, h2, sharing_of_canon hinj (fun k s p h => ⟨(hok k s p h).1, (hok k s p h).2.1⟩) hc⟩
+
+/-- The same under the WEAK hypothesis `IOkW` on the decoder-side interner (repaired decoder, /repo F61COMMIT; live
+values may hold `Interned::new_duplicating` handles): the sharing relation holds among all handles this decode
+produced — `d.handlesAbove I.length`, every handle of `d` not inside an allocation that existed before the call.
+What a non-canonical live value holds inside (its private copies) is, of course, not shared with anything. -/
+theorem interned_sharing_nested_weak {env : Nat → NTy} {hash : Nat → NVal → Nat} {S : Nat → NVal → Prop}
+    (hinj : ∀ tid p₁ p₂, S tid p₁ → S tid p₂ → hash tid p₁ = hash tid p₂ → p₁ = p₂)
+    (hbound : ∀ tid p, S tid p → hash tid p < 2 ^ 128)
+    (t : NTy) (v : NVal) (hwt : wtN env t v = true) (hS : ∀ x ∈ v.handles, S x.1 x.2)
+    (I : NInterner) (hI : IOkW hash S I) (rest : Bytes) (fuel : Nat) (hfuel : v.need ≤ fuel) :
+    ∃ d I', dec true env hash fuel t (encodeTop env hash t v ++ rest) I = .ok (d, rest, I') ∧ d.erase = v ∧
+      ∀ x ∈ d.handlesAbove I.length, ∀ y ∈ d.handlesAbove I.length,
+        (x.2.1 = y.2.1 ↔ (x.1 = y.1 ∧ x.2.2.erase = y.2.2.erase)) ∧ (x.2.1 = y.2.1 → x.2.2 = y.2.2) := by
+  obtain ⟨d, I', h1, h2, _, hok, hc⟩ := C12Nested.interned_roundtrip_nested_weak hinj hbound t v hwt hS I hI rest fuel hfuel
+  exact ⟨d, I', h1, h2, sharing_of_canon hinj hok hc⟩
+
 /-- decoding through an interner in which an equal value is alive (the encoder's own interner, the
 originals still held) yields handles to THAT allocation, at every depth -/
 theorem interned_sharing_with_live {env : Nat → NTy} {hash : Nat → NVal → Nat} {S : Nat → NVal → Prop}
@@ -58,7 +80,7 @@ theorem interned_sharing_with_live {env : Nat → NTy} {hash : Nat → NVal → 
     (hbound : ∀ tid p, S tid p → hash tid p < 2 ^ 128)
     (t : NTy) (v : NVal) (hwt : wtN env t v = true) (hS : ∀ x ∈ v.handles, S x.1 x.2)
     (I : NInterner) (hI : IOk hash S I) (rest : Bytes) (fuel : Nat) (hfuel : v.need ≤ fuel) :
-    ∃ d I', dec env hash fuel t (encodeTop env hash t v ++ rest) I = .ok (d, rest, I') ∧
+    ∃ d I', dec true env hash fuel t (encodeTop env hash t v ++ rest) I = .ok (d, rest, I') ∧
       ∀ x ∈ d.handles, ∀ s q, NInterner.find I (x.1, hash x.1 x.2.2.erase) = some (s, q) → x.2.1 = s ∧ x.2.2 = q := by
   obtain ⟨d, I', h1, _, hle, _, hc⟩ := C12Nested.interned_roundtrip_nested hinj hbound t v hwt hS I hI rest fuel hfuel
   refine ⟨d, I', h1, ?_⟩
@@ -110,12 +132,12 @@ open C12Nested in
 /-- the statement has content: in the decoded diamond there are pairs of occurrences that share (the leaf
 inside `A` and the leaf at top level) and pairs that do not (`A` and `B`), and two handles of different types
 with equal hashes get different allocations -/
-example : (match dec exEnv exHash 41 exTy (encodeTop exEnv exHash exTy exVal) [] with
+example : (match dec true exEnv exHash 41 exTy (encodeTop exEnv exHash exTy exVal) [] with
     | .ok (d, _, _) => (d.handles.map (fun x => x.2.1)) | .error _ => []) =
     [4, 2, 0, 1, 3, 0, 0, 0, 1, 6, 5, 2, 0, 1, 0] := by decide
 
 open C12Nested in
-example : (match dec exEnv (fun _ _ => 9) 20 (.tuple [.handle 1, .handle 3, .handle 1])
+example : (match dec true exEnv (fun _ _ => 9) 20 (.tuple [.handle 1, .handle 3, .handle 1])
       (encodeTop exEnv (fun _ _ => 9) (.tuple [.handle 1, .handle 3, .handle 1])
         (.list [.handle 1 (.plain (.bytes [0x61])), .handle 3 (.tagged 0 (.list [])), .handle 1 (.plain (.bytes [0x61]))])) [] with
     | .ok (d, _, _) => d.handles.map (fun x => (x.1, x.2.1)) | .error _ => []) = [(1, 0), (3, 1), (1, 0)] := by decide
@@ -123,8 +145,8 @@ example : (match dec exEnv (fun _ _ => 9) 20 (.tuple [.handle 1, .handle 3, .han
 open C12Nested in
 /-- decoding the diamond a second time through the interner the first decoding left behind (shared interner,
 everything alive): no new allocation, the same identities -/
-example : (match dec exEnv exHash 41 exTy (encodeTop exEnv exHash exTy exVal) [] with
-    | .ok (_, _, I1) => (match dec exEnv exHash 41 exTy (encodeTop exEnv exHash exTy exVal) I1 with
+example : (match dec true exEnv exHash 41 exTy (encodeTop exEnv exHash exTy exVal) [] with
+    | .ok (_, _, I1) => (match dec true exEnv exHash 41 exTy (encodeTop exEnv exHash exTy exVal) I1 with
         | .ok (d, _, I2) => (d.handles.map (fun x => x.2.1), I2.length) | .error _ => ([], 0))
     | .error _ => ([], 0)) = ([4, 2, 0, 1, 3, 0, 0, 0, 1, 6, 5, 2, 0, 1, 0], 7) := by decide
 
